@@ -14,6 +14,8 @@ print(f"""You are helping test a verification harness for the Go library gkampit
 
 You have your own scratch git worktree of the repository at {wt} (a detached checkout of the pinned commit). Work ONLY inside {wt} and {out}. Do NOT read or touch /verif or /repo (they are off limits, so that what you write is independent).
 
+IMPORTANT: never use `git stash` (the stash is shared with other worktrees of the same repository and gets mixed up); to test the pristine direction save your change with `git diff > /some/file`, run `git checkout -- .`, and re-apply with `git apply /some/file`.
+
 The sandbox has no network. Every shell call that runs go needs:
   export GOFLAGS=-mod=mod GOPROXY=off GOSUMDB=off GOTOOLCHAIN=local
 The existing test suite is run with:  cd {wt} && go test -vet=off -count=1 ./...   (takes ~2 s; all packages must stay `ok`).
